@@ -47,6 +47,7 @@ type generator struct {
 	rels []int
 	nons []int
 	ss   *Session
+	sparseDone bool
 	// focus: a structural anomaly was reported by the hook; prefer operations on relation nodes and
 	// registered filters so that latent corruption becomes observable (the verdict stays observable-only)
 	focus bool
@@ -482,6 +483,37 @@ func (g *generator) nextInner() Op {
 		op := g.plan[0]
 		g.plan = g.plan[1:]
 		return op
+	}
+	if g.p.Twin == "load" && g.p.MaxEnts >= 100 && !g.sparseDone && len(g.x.issued) == 0 && len(g.nons) >= 2 {
+		// a large, sparse dump: two batches of entities, the first one removed again (ids 1..n free, the alive entities
+		// have the high ids, more than one 64-bit word of ids), dump, load; then the loaded world is asked about its
+		// highest ids first - before it has issued any fresh id
+		g.sparseDone = true
+		n := 30 + g.rng.Intn(g.p.MaxBatch-29)
+		m := 70 - n + g.rng.Intn(20)
+		if m > g.p.MaxBatch {
+			m = g.p.MaxBatch
+		}
+		a, b := g.nons[0], g.nons[1]
+		plan := []Op{
+			{Op: "NewBatch", Api: "Builder.NewBatch", Ids: []int{a}, N: n, Tgt: -1},
+			{Op: "NewBatch", Api: "Builder.NewBatch", Ids: []int{b}, N: m, Tgt: -1},
+			{Op: "BatchRemove", F: &FSpec{K: "all", Ids: []int{a}, Tgt: -1}},
+			{Op: "Dump"},
+		}
+		last := n + m - 1
+		switch g.rng.Intn(3) {
+		case 0:
+			plan = append(plan, Op{Op: "RemoveEntity", E: last}, Op{Op: "NewEntity", Api: "World.NewEntity", Ids: []int{a}})
+		case 1:
+			plan = append(plan, Op{Op: "NewEntity", Api: "World.NewEntity", Ids: []int{a}}, Op{Op: "RemoveEntity", E: last - 1})
+		default:
+			// (single-entity operations only: a loaded world's entities have no components, filters select differently)
+			plan = append(plan, Op{Op: "RemoveEntity", E: last - 2}, Op{Op: "RemoveEntity", E: last},
+				Op{Op: "NewEntity", Api: "World.NewEntity", Ids: []int{}}, Op{Op: "NewEntity", Api: "World.NewEntity", Ids: []int{b}})
+		}
+		g.plan = plan[1:]
+		return plan[0]
 	}
 	alive := g.aliveRefs()
 	dead := g.deadRefs()
@@ -1353,7 +1385,7 @@ func (g *generator) nextInner() Op {
 				g.plan = []Op{child, child, last, {Op: "Panel", F: &FSpec{K: "rel", Subs: []*FSpec{{K: "all", Ids: []int{2}, Tgt: -1}}, Tgt: p}, Walk: g.walk()}}
 				return Op{Op: "NewEntity", Api: "World.NewEntity", Ids: []int{}}
 			}
-			if g.pct(9) && !g.locked() {
+			if g.pct(15) && !g.locked() {
 				// map family B (types 0, 1, 3 .. 11, 13; relation 2 or 12 NOT owned by the map): Remove / RemoveBatch / Add with a target are
 				// accepted calls here - a new target, the explicit zero target ("reset", not "keep") or, with the relation
 				// configured but no target given, the plain operation that keeps the target. Cycles through (arity, variant).
@@ -1530,9 +1562,13 @@ func (g *generator) nextInner() Op {
 				}
 				reg := Op{Op: "GBuild", Api: "generic.Filter.Register", Qi: gi, Tgt: -1}
 				unreg := Op{Op: "GBuild", Api: "generic.Filter.Unregister", Qi: gi, Tgt: -1}
-				plan = append(plan, q, reg, q, unreg, q)
+				// q0: no per-call target - after a query WITH one, and again after Register + Unregister, it must select the
+				// entities of every target (the per-call target of an earlier query must not stick to the filter)
+				q0 := q
+				q0.HasTgt = false
+				plan = append(plan, q, reg, q, unreg, q0, q)
 				if g.pct(50) {
-					plan = append(plan, reg, q, unreg, q)
+					plan = append(plan, reg, q0, unreg, q0)
 				}
 				g.gplan = plan
 				return Op{Op: "GNewFilter", Api: "generic.NewFilter", Ar: ar}
